@@ -106,7 +106,7 @@ def run(F, rep):
         for bi, s, e in starts:
             fe = fmt(e)
             m = re.fullmatch(r"(?:num::saturating_sub|Sub)\(Add\(1, (.+)\), k\)", fe)
-            okS1 = bool(m) and "next(iter)" in fe
+            okS1 = bool(m) and re.search(r"next\(\w+\)", fe) is not None
             why = "segment_start = %s" % fe
             if not okS1:
                 # a case split written by hand: each branch is (pos + 1) - k, or 0 under a guard that implies pos + 1 <= k
@@ -117,7 +117,7 @@ def run(F, rep):
         for bi, t in inloop:
             a = [strip_tags(ex.operand(x)) for x in t["args"]]
             data = fmt(a[0])
-            okd = re.fullmatch(r"slice::to_vec\(index\(contig, Range::Range\{start: %s, end: Add\(1, .*next\(iter\).*\)\}\)\)" % re.escape(svar), data) is not None
+            okd = re.fullmatch(r"slice::to_vec\(index\(contig, Range::Range\{start: %s, end: Add\(1, .*next\(\w+\).*\)\}\)\)" % re.escape(svar), data) is not None
             rep.ob("C10-S1", "%s: an in-loop segment is contig[segment_start .. pos+1]" % name, okd, detail=data[:160], site=site_of(f, t), key="C10-S1 | %s | in-loop slice" % f.key)
             # S2: back k-mer == tested value == next front k-mer
             back = a[2]
